@@ -1,17 +1,20 @@
 #!/bin/bash
 # Runs every seeded mutant against the quick check of its own property; writes selftest/matrix.tsv
+# usage: tools_mutant_matrix.sh [scratch worktree]   (default: a fresh worktree of /repo's HEAD under /tmp, removed afterwards)
+wt=$1; own=0
+if [ -z "$wt" ]; then wt=/tmp/wt_matrix_$$; git -C /repo worktree add -q --detach $wt HEAD; own=1; fi
 mkdir -p /verif/selftest
 out=/verif/selftest/matrix.tsv
 echo -e "mutant\tproperty\tapplies\texit\tsignatures" > $out
 for d in /verif/seeded/*/; do
   m=$(basename $d); pid=${m%%_*}
-  if ! git -C /repo diff --quiet; then echo "/repo dirty"; exit 2; fi
-  if ! git -C /repo apply --check $d/patch.diff 2>/dev/null; then echo -e "$m\t$pid\tno\t-\t-" >> $out; continue; fi
-  git -C /repo apply $d/patch.diff
-  res=$(cd /verif && VERIF_NO_EVIDENCE=1 timeout 1200 /venv/bin/python run_check.py $pid 2>&1); rc=$?
-  git -C /repo checkout -- .
+  git -C $wt checkout -q -- .
+  if ! git -C $wt apply --check $d/patch.diff 2>/dev/null; then echo -e "$m\t$pid\tno\t-\t-" >> $out; continue; fi
+  git -C $wt apply $d/patch.diff
+  res=$(cd /verif && VERIF_REPO=$wt VERIF_NO_EVIDENCE=1 timeout 1800 /venv/bin/python run_check.py $pid 2>&1); rc=$?
+  git -C $wt checkout -q -- .
   sigs=$(echo "$res" | grep "signature:" | sed 's/ *signature: //' | head -5 | tr '\n' ';')
   echo -e "$m\t$pid\tyes\t$rc\t$sigs" >> $out
   echo "$m exit=$rc"
 done
-find /verif/replay -name "*.json" -newer $out -delete 2>/dev/null
+[ $own = 1 ] && git -C /repo worktree remove --force $wt
